@@ -277,6 +277,16 @@ def r17_2(ctx):
                 construct = f"{f.short}/{ast.unparse(n.func)[5:]} only after {need}"
                 ok = any(need in k and p for k, p in gs)
                 (ctx.ok(construct, f.loc(n)) if ok else ctx.bad(construct, f"dialog opened under {sorted(gs)}", f.loc(n)))
+    # the same decision written as a table `{ChangeResult.NEEDS_INPUT: self._show_input_dialog, ...}`: the key is the answer
+    for f in repo.funcs_in(APP):
+        for d in [n for n in ast.walk(f.node) if isinstance(n, ast.Dict) and repo.enclosing_func(n) is f]:
+            for k, v in zip(d.keys, d.values):
+                if k is not None and isinstance(v, ast.Attribute) and ast.unparse(v) in ("self._show_input_dialog", "self._show_warning_then_change"):
+                    need = "NEEDS_INPUT" if "input" in v.attr else "NEEDS_WARNING"
+                    construct = f"{f.short}/table entry {v.attr} only for {need}"
+                    ctx.analysed(f.qual)
+                    (ctx.ok(construct, f.loc(v)) if need in ast.unparse(k) else
+                     ctx.bad(construct, f"the dialog is dispatched for `{ast.unparse(k)}`", f.loc(v)))
     ch = repo.func(f"{MODEL}:MenuConfigState.changeable")
     ctx.analysed(ch.qual)
     rets = [ast.unparse(n.value) for n in ast.walk(ch.node) if isinstance(n, ast.Return) and n.value is not None]
